@@ -1,11 +1,12 @@
 import Driver.Common
 import EgVerif.Spec.BrokerSessions
-/-! Judge for C16: replays the harness schedule in the model (`orunMacro true`: the coarse model with
-the origin of every queued delete event and the repaired broker's own-delete counter —
-fixes/C16-own-delete-event.patch), compares the snapshot after every macro action, evaluates the
-executable property (`violationO`: `violation` + the origin-aware clause for a delivered delete
-event, origins tracked from the actions and the observed `watch` counter) on what the
-implementation showed. -/
+/-! Judge for C16: replays the harness schedule in the model (`orunMacro false`: the coarse model of the
+CURRENT code with the origin of every queued delete event), compares the snapshot after every macro
+action, evaluates the executable property (`violationO`: `violation` + the origin-aware clause for a
+delivered delete event, origins tracked from the actions and the observed `watch` counter) on what the
+implementation showed. The current code breaks the teardown-origin clause (known finding
+`C16-own-delete-event`, sig `stale-teardown-event:new-connection-disconnected`): such a case is
+`spec = false` with `agree = true` (the model predicts it). -/
 open Lean Driver EgVerif.BrokerSessions
 
 namespace Driver.C16
@@ -107,7 +108,7 @@ def stepJudge (acc : Acc) (m : MAct) (o : ObsStep) : Acc :=
   -- model (ostep: enabled exactly when the base step is)
   let nexts : List (OSt × Bool) := acc.cands.flatMap (fun s =>
     let sk := skipped true s.base m
-    (if sk then [s] else orunMacro true s m).map (fun s' => (s', sk)))
+    (if sk then [s] else orunMacro false s m).map (fun s' => (s', sk)))
   let nexts := dedupSt nexts
   let matching := nexts.filter (fun (s', sk) => project s'.base == o.snap && sk == o.skipped && discOk o s'.base)
   let agree := acc.agree && !matching.isEmpty && o.err == ""
@@ -120,15 +121,17 @@ def stepJudge (acc : Acc) (m : MAct) (o : ObsStep) : Acc :=
   let head := acc.track.head
   let v := violationO acc.track acc.prev m o.skipped o.snap
   let v := match v, m, head with
-    | none, .watch, some (.admin (some k)) =>
-      -- the victim's broker-side Client must report disconnected()
-      if !o.skipped && o.seen.contains k && !o.disc.contains k then some "admin-delete:client-not-disconnected" else none
+    | none, .watch, some (.admin _) =>
+      -- the registered connection's broker-side Client must report disconnected()
+      (match acc.prev.reg with
+       | some k => if !o.skipped && o.seen.contains k && !o.disc.contains k then
+           some "admin-delete:client-not-disconnected" else none
+       | none => none)
     | none, .watch, some (.teardownOf j) =>
       -- a live connection other than the event's origin must not be flagged disconnected by it
       (match liveReg acc.prev with
        | some k => if !o.skipped && k != j && o.disc.contains k then
-           some (if acc.track.overtaken then "stale-teardown-event:after-overtaken-admin-event"
-                 else "stale-teardown-event:new-connection-disconnected") else none
+           some "stale-teardown-event:new-connection-disconnected" else none
        | none => none)
     | v, _, _ => v
   let v := if v.isNone && o.err != "" then some ("harness-error:" ++ o.err) else v
